@@ -126,6 +126,9 @@ func (v *V) Encode(out []byte) []byte {
 	}
 	switch v.T {
 	case TBool:
+		if v.U > 1 {
+			return append(out, byte(v.U)) // a deliberately invalid bool byte (see PoisonBool)
+		}
 		if v.U != 0 {
 			return append(out, 1)
 		}
@@ -256,5 +259,37 @@ func Enumerate(t byte, budget int, f func(*V) bool) bool {
 		}
 		return true
 	}
+	return true
+}
+
+// Bools lists the bool nodes of v, at any depth.
+func (v *V) Bools() []*V {
+	var out []*V
+	var walk func(x *V)
+	walk = func(x *V) {
+		if x == nil {
+			return
+		}
+		if x.T == TBool {
+			out = append(out, x)
+		}
+		for i := range x.Fields {
+			walk(x.Fields[i].V)
+		}
+		for _, it := range x.Items {
+			walk(it)
+		}
+	}
+	walk(v)
+	return out
+}
+
+// PoisonBool turns one bool of v into a byte outside {0, 1}; false if v has no bool.
+func (v *V) PoisonBool(r *rng.R) bool {
+	bs := v.Bools()
+	if len(bs) == 0 {
+		return false
+	}
+	bs[r.Intn(len(bs))].U = uint64(2 + r.Intn(254))
 	return true
 }
